@@ -2,12 +2,19 @@ package route
 
 // C04 conformance: every weight vector TLC generated from Weights_MC (targets added with
 // `route add ... weight`, optionally re-weighted by `route weight` commands over services and
-// tags) is built by the real NewTable; every Target.Weight must equal the exact rational the
-// specification prescribes, the weighted ring must give every target its share (exactly, or
-// within one slot of the 10 000 ring; at least one slot iff the weight is positive), one full
-// cycle of real round-robin picks must follow the ring under the cursor and hit every target
-// exactly as often as it occupies the ring, and the random picker (its random source replaced
-// by a counter that draws every ring index once) must return ring members only.
+// tags, including weight 0 / negative as the last command) is built by the real NewTable;
+// every Target.Weight must equal the exact rational the specification prescribes for the LAST
+// configuration, the weighted ring must give every target its share (exactly, or within one
+// slot of the 10 000 ring; at least one slot iff the weight is positive), full cycles of real
+// round-robin lookups must hit every target exactly as often as it occupies the ring, and the
+// random picker (its random source replaced by a counter that draws every ring index once)
+// must return ring members only.  TestVerifC04Multi interleaves round-robin lookups over
+// several routes of one table (same path on different hosts, ':port' routes) following the
+// schedules TLC generated from WeightsRR_MC: every route's own cycle must stay exact.
+//
+// The harness goes through the exported API (NewTable, Table.Lookup, Table.LookupHost,
+// Picker[...], Matcher[...], Route.Targets); the only unexported identifiers it touches are
+// the ring (c04Ring) and the random source (randIntn), each in one place.
 
 import (
 	"encoding/json"
@@ -24,6 +31,9 @@ import (
 
 	"github.com/fabiolb/fabio/internal/verifx"
 )
+
+// c04Ring is the single place that reads the weighted ring of a route.
+func c04Ring(r *Route) []*Target { return r.wTargets }
 
 type c04Target struct {
 	Svc  string   `json:"svc"`
@@ -55,6 +65,13 @@ type c04Case struct {
 	Warmup int    `json:"warmup,omitempty"`
 }
 
+// a multi-route case (replay format of TestVerifC04Multi)
+type c04Multi struct {
+	Sched  []int     `json:"sched"`
+	Routes []c04Case `json:"routes"` // each with its Src
+	Warmup int       `json:"warmup"`
+}
+
 func c04Weight(k, unit int64) string {
 	return strconv.FormatFloat(float64(k)/float64(unit), 'f', -1, 64)
 }
@@ -65,10 +82,15 @@ func c04Tags(ts []string) string {
 	return strings.Join(s, ",")
 }
 
-func c04Script(c *c04Case) string {
+// c04Script renders the commands of one route; base makes the target URLs of different routes distinct.
+func c04Script(c *c04Case, base int) string {
 	var b strings.Builder
+	scheme := "http"
+	if strings.HasPrefix(c.Src, ":") {
+		scheme = "tcp"
+	}
 	for i, a := range c.Adds {
-		fmt.Fprintf(&b, "route add %s %s http://10.0.0.%d:%d/", a.Svc, c.Src, i+1, 8000+i)
+		fmt.Fprintf(&b, "route add %s %s %s://10.0.%d.%d:%d/", a.Svc, c.Src, scheme, base, i+1, 8000+i)
 		if a.K != 0 {
 			fmt.Fprintf(&b, " weight %s", c04Weight(a.K, c.Unit))
 		}
@@ -91,6 +113,18 @@ func c04Script(c *c04Case) string {
 	return b.String()
 }
 
+// c04Split splits a source into the table key and the route path (documented: host/path or :port).
+func c04Split(src string) (host, path string) {
+	if strings.HasPrefix(src, ":") {
+		return src, ""
+	}
+	i := strings.Index(src, "/")
+	if i < 0 {
+		return strings.ToLower(src), "/"
+	}
+	return strings.ToLower(src[:i]), src[i:]
+}
+
 func c04Request(host, path string) *http.Request {
 	return &http.Request{Method: "GET", Host: host, URL: &url.URL{Path: path}, Header: http.Header{}, RequestURI: path}
 }
@@ -99,36 +133,24 @@ func c04Request(host, path string) *http.Request {
 var c04RndMu sync.Mutex
 
 type c04Stats struct {
-	cases, weights, cycles, picks, rndPicks, nontrivial, viaCmd int64
+	cases, weights, cycles, picks, rndPicks, nontrivial, viaCmd, resets, multi, multiPicks int64
 }
 
-func c04Run(c *c04Case, doPicks bool, cache *GlobCache, st *c04Stats) {
-	via := "add"
-	if len(c.Cmds) > 0 {
-		via = "weight-cmd"
-	}
-	fail := func(clause, picker, format string, a ...any) {
-		cc := *c
-		verifx.Fail(cc, map[string]any{"clause": clause, "via": via, "picker": picker, "targets": len(c.Adds)},
-			"%s\nscript:\n%s", fmt.Sprintf(format, a...), c04Script(c))
-	}
+type c04Failer func(clause, picker, format string, a ...any)
+
+// c04Route is a verified route of a real table: its ring occupancy per target and a lookup function.
+type c04Route struct {
+	r    *Route
+	idx  map[*Target]int
+	occ  []int
+	u    int
+	pick func(p picker, public bool) *Target
+}
+
+// c04Static checks weights and ring of the route built for c and returns the handle for picking.
+func c04Static(tbl Table, c *c04Case, cache *GlobCache, st *c04Stats, fail c04Failer) *c04Route {
 	n := len(c.Adds)
-	if n == 0 || len(c.Fk) != n || len(c.Ew) != n || len(c.Lo) != n || len(c.Hi) != n || c.Unit <= 0 {
-		verifx.Emit(map[string]any{"kind": "error", "msg": "malformed case"})
-		return
-	}
-	var tbl Table
-	var err error
-	if p, stack := verifx.Safely(func() { tbl, err = newTableFromText(c04Script(c)) }); p != nil {
-		fail("panic", "", "panic building the table: %v\n%s", p, stack)
-		return
-	}
-	if err != nil {
-		fail("table-rejected", "", "well-formed script rejected: %v", err)
-		return
-	}
-	host, path := hostpath(c.Src)
-	host = strings.ToLower(host)
+	host, path := c04Split(c.Src)
 	var r *Route
 	for _, x := range tbl[host] {
 		if x.Path == path {
@@ -137,7 +159,7 @@ func c04Run(c *c04Case, doPicks bool, cache *GlobCache, st *c04Stats) {
 	}
 	if r == nil || len(r.Targets) != n {
 		fail("structure", "", "route %s missing or has the wrong number of targets", c.Src)
-		return
+		return nil
 	}
 	// ---- effective weights
 	sum := 0.0
@@ -149,30 +171,30 @@ func c04Run(c *c04Case, doPicks bool, cache *GlobCache, st *c04Stats) {
 			gotF = 0
 		}
 		if !(math.Abs(gotF-wantF) <= wTol) {
-			fail("fixed-weight", "", "target %d fixed weight %v, the specification prescribes %d/%d", i, t.FixedWeight, c.Fk[i], c.Unit)
-			return
+			fail("fixed-weight", "", "route %s target %d fixed weight %v, the specification prescribes %d/%d", c.Src, i, t.FixedWeight, c.Fk[i], c.Unit)
+			return nil
 		}
 		want := float64(c.Ew[i].N) / float64(c.Ew[i].D)
 		if !(math.Abs(t.Weight-want) <= wTol) {
-			fail("effective-weight", "", "target %d weight %v, the specification prescribes %d/%d = %v", i, t.Weight, c.Ew[i].N, c.Ew[i].D, want)
-			return
+			fail("effective-weight", "", "route %s target %d weight %v, the specification prescribes %d/%d = %v", c.Src, i, t.Weight, c.Ew[i].N, c.Ew[i].D, want)
+			return nil
 		}
 		if !(t.Weight >= 0) {
-			fail("negative-weight", "", "target %d weight %v", i, t.Weight)
-			return
+			fail("negative-weight", "", "route %s target %d weight %v", c.Src, i, t.Weight)
+			return nil
 		}
 		sum += t.Weight
 	}
 	if !(math.Abs(sum-1) <= wTol) {
-		fail("sum", "", "weights sum to %v", sum)
-		return
+		fail("sum", "", "route %s weights sum to %v", c.Src, sum)
+		return nil
 	}
 	// ---- the ring
-	ring := r.wTargets
+	ring := c04Ring(r)
 	u := len(ring)
 	if u == 0 {
-		fail("ring-empty", "", "empty ring")
-		return
+		fail("ring-empty", "", "route %s has an empty ring", c.Src)
+		return nil
 	}
 	idx := map[*Target]int{}
 	for i, t := range r.Targets {
@@ -182,8 +204,8 @@ func c04Run(c *c04Case, doPicks bool, cache *GlobCache, st *c04Stats) {
 	for j, t := range ring {
 		i, ok := idx[t]
 		if t == nil || !ok {
-			fail("ring-empty-slot", "", "ring slot %d of %d holds no target of the route", j, u)
-			return
+			fail("ring-empty-slot", "", "route %s ring slot %d of %d holds no target of the route", c.Src, j, u)
+			return nil
 		}
 		occ[i]++
 	}
@@ -192,109 +214,163 @@ func c04Run(c *c04Case, doPicks bool, cache *GlobCache, st *c04Stats) {
 		atomic.AddInt64(&st.cycles, 1)
 		switch {
 		case w.N == 0 && occ[i] != 0:
-			fail("zero-weight-on-ring", "", "target %d has weight 0 but %d of %d ring slots", i, occ[i], u)
-			return
+			fail("zero-weight-on-ring", "", "route %s target %d has weight 0 but %d of %d ring slots", c.Src, i, occ[i], u)
+			return nil
 		case w.N > 0 && occ[i] == 0:
-			fail("starved", "", "target %d has weight %d/%d but no ring slot (ring of %d)", i, w.N, w.D, u)
-			return
+			fail("starved", "", "route %s target %d has weight %d/%d but no ring slot (ring of %d)", c.Src, i, w.N, w.D, u)
+			return nil
 		}
 		exact := int64(occ[i])*w.D == int64(u)*w.N
 		if !exact && !(c.Lo[i] <= occ[i] && occ[i] <= c.Hi[i]) {
-			fail("ring-share", "", "target %d (weight %d/%d) occupies %d of %d ring slots; the specification allows the exact share or %d..%d slots of 10000",
-				i, w.N, w.D, occ[i], u, c.Lo[i], c.Hi[i])
-			return
+			fail("ring-share", "", "route %s target %d (weight %d/%d) occupies %d of %d ring slots; the specification allows the exact share or %d..%d slots of 10000",
+				c.Src, i, w.N, w.D, occ[i], u, c.Lo[i], c.Hi[i])
+			return nil
 		}
 	}
-	if !doPicks {
+	reqHost := strings.TrimSuffix(c.Src, path)
+	tcp := strings.HasPrefix(c.Src, ":")
+	rootPath := path == "/" || path == ""
+	prefix := Matcher["prefix"]
+	return &c04Route{r: r, idx: idx, occ: occ, u: u, pick: func(p picker, public bool) *Target {
+		if tcp || (rootPath && !public) {
+			return tbl.LookupHost(reqHost, p) // what the TCP / SNI proxies call
+		}
+		return tbl.Lookup(c04Request(reqHost, path+"/sub"), "", p, prefix, cache, false) // what the HTTP proxy calls
+	}}
+}
+
+// c04Cycles checks a recorded sequence of round-robin picks of ONE route (target indices):
+// the first full cycle, a later window and the period.
+func c04Cycles(rt *c04Route, seq []int, window int, c *c04Case, clause string, fail c04Failer) bool {
+	u, n := rt.u, len(rt.occ)
+	if len(seq) < 2*u {
+		return true
+	}
+	for _, start := range []int{0, window % u} {
+		got := make([]int, n)
+		for _, i := range seq[start : start+u] {
+			got[i]++
+		}
+		for i := range got {
+			if got[i] != rt.occ[i] {
+				fail(clause, "rr", "route %s: %d consecutive round-robin lookups (from its lookup %d on) sent target %d %d requests, it occupies %d of the %d ring slots (weight %d/%d)",
+					c.Src, u, start, i, got[i], rt.occ[i], u, c.Ew[i].N, c.Ew[i].D)
+				return false
+			}
+		}
+	}
+	for j := 0; j+u < len(seq); j++ {
+		if seq[j] != seq[j+u] {
+			fail(clause, "rr", "route %s: round-robin lookup %d went to target %d, lookup %d (one ring length of %d later) to target %d", c.Src, j, seq[j], j+u, u, seq[j+u])
+			return false
+		}
+	}
+	return true
+}
+
+func c04Valid(c *c04Case) bool {
+	n := len(c.Adds)
+	return n > 0 && len(c.Fk) == n && len(c.Ew) == n && len(c.Lo) == n && len(c.Hi) == n && c.Unit > 0
+}
+
+func c04Run(c *c04Case, doPicks bool, cache *GlobCache, st *c04Stats) {
+	via := "add"
+	if len(c.Cmds) > 0 {
+		via = "weight-cmd"
+		if c.Cmds[len(c.Cmds)-1].W <= 0 {
+			via = "weight-cmd-reset-last"
+		}
+	}
+	fail := func(clause, pk, format string, a ...any) {
+		cc := *c
+		verifx.Fail(cc, map[string]any{"clause": clause, "via": via, "picker": pk, "targets": len(c.Adds)},
+			"%s\nscript:\n%s", fmt.Sprintf(format, a...), c04Script(c, 0))
+	}
+	if !c04Valid(c) {
+		verifx.Emit(map[string]any{"kind": "error", "msg": "malformed case"})
 		return
 	}
-	// ---- round robin: one full cycle from an arbitrary cursor position
-	pickVia := func(pick picker, public bool) *Target {
-		if public {
-			return tbl.Lookup(c04Request(strings.TrimSuffix(c.Src, path), path+"/sub"), "", pick, prefixMatcher, cache, false)
-		}
-		return tbl.lookup(host, path+"/sub", "", pick, prefixMatcher)
+	var tbl Table
+	var err error
+	if p, stack := verifx.Safely(func() { tbl, err = newTableFromText(c04Script(c, 0)) }); p != nil {
+		fail("panic", "", "panic building the table: %v\n%s", p, stack)
+		return
 	}
+	if err != nil {
+		fail("table-rejected", "", "well-formed script rejected: %v", err)
+		return
+	}
+	rt := c04Static(tbl, c, cache, st, fail)
+	if rt == nil || !doPicks {
+		return
+	}
+	n, u := len(c.Adds), rt.u
+	rr, rnd := Picker["rr"], Picker["rnd"]
+	// ---- round robin: two full cycles from an arbitrary cursor position
 	for j := 0; j < c.Warmup%u; j++ {
-		pickVia(rrPicker, false)
+		rt.pick(rr, false)
 	}
-	got := make([]int, n)
-	for j := 0; j < u; j++ {
-		cur := r.total
-		t := pickVia(rrPicker, j%97 == 3)
+	seq := make([]int, 0, 2*u)
+	for j := 0; j < 2*u; j++ {
+		t := rt.pick(rr, j%97 == 3)
 		atomic.AddInt64(&st.picks, 1)
-		i, ok := idx[t]
+		i, ok := rt.idx[t]
 		if !ok {
-			fail("rr-nonmember", "rr", "round-robin pick %d returned %v, not a target of the route", j, t)
+			fail("rr-nonmember", "rr", "round-robin lookup %d returned %v, not a target of the route", j, t)
 			return
 		}
-		if n > 1 {
-			if r.total != cur+1 {
-				fail("rr-cursor", "rr", "round-robin pick %d moved the cursor from %d to %d", j, cur, r.total)
-				return
-			}
-			if t != ring[cur%uint64(u)] {
-				fail("rr-order", "rr", "round-robin pick %d with cursor %d returned target %d, the ring holds target %d there", j, cur, i, idx[ring[cur%uint64(u)]])
-				return
-			}
-		}
-		got[i]++
+		seq = append(seq, i)
 	}
-	for i := range got {
-		if got[i] != occ[i] {
-			fail("rr-count", "rr", "one full round-robin cycle of %d picks sent target %d %d requests, it occupies %d ring slots (weight %d/%d)", u, i, got[i], occ[i], c.Ew[i].N, c.Ew[i].D)
-			return
-		}
+	if !c04Cycles(rt, seq, c.Warmup/3+1, c, "rr-count", fail) {
+		return
 	}
 	// ---- random picker with a counter as random source: every ring index drawn once
-	{
-		c04RndMu.Lock()
-		saved := randIntn
-		var asked []int
-		ctr := 0
-		randIntn = func(m int) int {
-			if m != u && len(asked) < 4 {
-				asked = append(asked, m)
-			}
-			if m <= 0 {
-				return 0
-			}
-			v := ctr % m
-			ctr++
-			return v
+	c04RndMu.Lock()
+	saved := randIntn
+	var asked []int
+	ctr := 0
+	randIntn = func(m int) int {
+		if m != u && len(asked) < 4 {
+			asked = append(asked, m)
 		}
-		gotR := make([]int, n)
-		bad := ""
-		p, stack := verifx.Safely(func() {
-			for j := 0; j < u; j++ {
-				t := pickVia(rndPicker, j%97 == 5)
-				i, ok := idx[t]
-				if !ok {
-					bad = fmt.Sprintf("random pick %d returned %v, not a target of the route", j, t)
-					return
-				}
-				gotR[i]++
-			}
-		})
-		randIntn = saved
-		c04RndMu.Unlock()
-		atomic.AddInt64(&st.rndPicks, int64(u))
-		switch {
-		case p != nil:
-			fail("panic", "rnd", "panic in random pick: %v\n%s", p, stack)
-			return
-		case bad != "":
-			fail("rnd-nonmember", "rnd", "%s", bad)
-			return
-		case n > 1 && len(asked) > 0:
-			fail("rnd-range", "rnd", "the random picker drew from a range of %v, the ring has %d slots", asked, u)
-			return
+		if m <= 0 {
+			return 0
 		}
-		for i := range gotR {
-			if gotR[i] != occ[i] {
-				fail("rnd-count", "rnd", "drawing every ring index once returned target %d %d times, it occupies %d ring slots (weight %d/%d)", i, gotR[i], occ[i], c.Ew[i].N, c.Ew[i].D)
+		v := ctr % m
+		ctr++
+		return v
+	}
+	gotR := make([]int, n)
+	bad := ""
+	p, stack := verifx.Safely(func() {
+		for j := 0; j < u; j++ {
+			t := rt.pick(rnd, j%97 == 5)
+			i, ok := rt.idx[t]
+			if !ok {
+				bad = fmt.Sprintf("random pick %d returned %v, not a target of the route", j, t)
 				return
 			}
+			gotR[i]++
+		}
+	})
+	randIntn = saved
+	c04RndMu.Unlock()
+	atomic.AddInt64(&st.rndPicks, int64(u))
+	switch {
+	case p != nil:
+		fail("panic", "rnd", "panic in random pick: %v\n%s", p, stack)
+		return
+	case bad != "":
+		fail("rnd-nonmember", "rnd", "%s", bad)
+		return
+	case n > 1 && len(asked) > 0:
+		fail("rnd-range", "rnd", "the random picker drew from a range of %v, the ring has %d slots", asked, u)
+		return
+	}
+	for i := range gotR {
+		if gotR[i] != rt.occ[i] {
+			fail("rnd-count", "rnd", "drawing every ring index once returned target %d %d times, it occupies %d ring slots (weight %d/%d)", i, gotR[i], rt.occ[i], c.Ew[i].N, c.Ew[i].D)
+			return
 		}
 	}
 }
@@ -312,14 +388,16 @@ func TestVerifC04(t *testing.T) {
 	var wg sync.WaitGroup
 	seen := map[uint64]bool{}
 	var samples []string
-	srcs := []string{"/p", "h.io/p", "H.io/", "/"}
+	srcs := []string{"/", "h.io/", "H.io/", ":1234", "h.io/p"}
 	for w := 0; w < workers; w++ {
 		wg.Add(1)
 		go func() {
 			defer wg.Done()
 			cache := NewGlobCache(100)
 			for j := range jobs {
-				c04Run(j.c, len(j.c.Adds) <= 3 && len(j.c.Cmds) == 0 || (j.n+seed)%pickEvery == 0, cache, &st)
+				c := j.c
+				always := len(c.Adds) <= 3 && len(c.Cmds) == 0
+				c04Run(c, always || (j.n+seed)%pickEvery == 0, cache, &st)
 			}
 		}()
 	}
@@ -344,13 +422,16 @@ func TestVerifC04(t *testing.T) {
 		}
 		if len(c.Cmds) > 0 {
 			st.viaCmd++
+			if c.Cmds[len(c.Cmds)-1].W <= 0 {
+				st.resets++
+			}
 		}
 		if c.Src == "" { // not a replay: choose the spelling and the cursor position by seed
 			c.Src = srcs[int((n+seed)%int64(len(srcs)))]
 			c.Warmup = int((n*7919 + seed*104729) % 10007)
 		}
 		if len(samples) < 4 && n%1999 == 11 {
-			samples = append(samples, strings.ReplaceAll(strings.TrimSpace(c04Script(&c)), "\n", " ; "))
+			samples = append(samples, strings.ReplaceAll(strings.TrimSpace(c04Script(&c, 0)), "\n", " ; "))
 		}
 		jobs <- job{&c, n}
 		return nil
@@ -362,5 +443,193 @@ func TestVerifC04(t *testing.T) {
 		t.Fatal(err)
 	}
 	verifx.Summary(map[string]any{"cases": n, "weights": st.weights, "cycles": st.cycles, "picks": st.picks, "rnd_picks": st.rndPicks,
-		"distinct_nontrivial": st.nontrivial, "via_weight_cmd": st.viaCmd, "samples": samples})
+		"distinct_nontrivial": st.nontrivial, "via_weight_cmd": st.viaCmd, "reset_last": st.resets, "samples": samples})
+}
+
+// ---- several routes, interleaved lookups
+
+var c04SrcSets = map[string][]string{
+	"same-path-different-hosts": {"a.io/", "b.io/", "/"},
+	"same-subpath":              {"a.io/p", "B.io/p", "c.io:8080/p"},
+	"tcp-ports":                 {":3306", ":5432", ":1234"},
+}
+
+func c04RunMulti(m *c04Multi, kind string, cache *GlobCache, st *c04Stats) {
+	fail := func(clause, pk, format string, a ...any) {
+		var script strings.Builder
+		for i := range m.Routes {
+			script.WriteString(c04Script(&m.Routes[i], i+1))
+		}
+		verifx.Fail(map[string]any{"multi": m, "kind": kind}, map[string]any{"clause": clause, "via": "multi-route", "picker": pk, "sources": kind, "pattern": len(m.Sched)},
+			"%s\nlookup schedule (repeated): %v\nscript:\n%s", fmt.Sprintf(format, a...), m.Sched, script.String())
+	}
+	var text strings.Builder
+	for i := range m.Routes {
+		if !c04Valid(&m.Routes[i]) {
+			verifx.Emit(map[string]any{"kind": "error", "msg": "malformed multi case"})
+			return
+		}
+		text.WriteString(c04Script(&m.Routes[i], i+1))
+	}
+	var tbl Table
+	var err error
+	if p, stack := verifx.Safely(func() { tbl, err = newTableFromText(text.String()) }); p != nil {
+		fail("panic", "", "panic building the table: %v\n%s", p, stack)
+		return
+	}
+	if err != nil {
+		fail("table-rejected", "", "well-formed script rejected: %v", err)
+		return
+	}
+	rts := make([]*c04Route, len(m.Routes))
+	for i := range m.Routes {
+		if rts[i] = c04Static(tbl, &m.Routes[i], cache, st, fail); rts[i] == nil {
+			return
+		}
+	}
+	used := map[int]bool{}
+	for _, r := range m.Sched {
+		if r < 1 || r > len(rts) {
+			verifx.Emit(map[string]any{"kind": "error", "msg": "schedule names a route that does not exist"})
+			return
+		}
+		used[r-1] = true
+	}
+	rr := Picker["rr"]
+	seqs := make([][]int, len(rts))
+	need := func() bool {
+		for i := range rts {
+			if used[i] && len(seqs[i]) < 2*rts[i].u {
+				return true
+			}
+		}
+		return false
+	}
+	for i := range rts { // cursors at different positions
+		for j := 0; j < (m.Warmup*(i+1))%rts[i].u; j++ {
+			rts[i].pick(rr, false)
+		}
+	}
+	for step := 0; need() && step < 400000; step++ {
+		i := m.Sched[step%len(m.Sched)] - 1
+		t := rts[i].pick(rr, step%89 == 7)
+		atomic.AddInt64(&st.multiPicks, 1)
+		k, ok := rts[i].idx[t]
+		if !ok {
+			fail("rr-interleaved-nonmember", "rr", "lookup %d on route %s returned %v, not a target of that route", step, m.Routes[i].Src, t)
+			return
+		}
+		if len(seqs[i]) < 2*rts[i].u {
+			seqs[i] = append(seqs[i], k)
+		}
+	}
+	for i := range rts {
+		if used[i] && !c04Cycles(rts[i], seqs[i], m.Warmup/3+1, &m.Routes[i], "rr-interleaved-count", fail) {
+			return
+		}
+	}
+}
+
+type c04Sched struct {
+	Sched  []int     `json:"sched"`
+	Routes int       `json:"routes"`
+	Multi  *c04Multi `json:"multi,omitempty"` // replay
+	Kind   string    `json:"kind,omitempty"`
+}
+
+// TestVerifC04Multi: VERIF_IN = vector cases (the pool of routes), VERIF_SCHED = lookup schedules.
+func TestVerifC04Multi(t *testing.T) {
+	seed := verifx.Seed()
+	workers := verifx.EnvInt("VERIF_WORKERS", 8)
+	poolMax := verifx.EnvInt("VERIF_POOL", 400)
+	var pool []c04Case
+	var replays []c04Sched
+	err := verifx.EachCase("", func(raw []byte) error {
+		var probe c04Sched
+		if json.Unmarshal(raw, &probe) == nil && probe.Multi != nil {
+			replays = append(replays, probe)
+			return nil
+		}
+		var c c04Case
+		if err := json.Unmarshal(raw, &c); err != nil {
+			return fmt.Errorf("bad case: %v", err)
+		}
+		// the pool: small vectors (rings of 1..4 and of ~10 000 slots), all kinds of scripts
+		if c04Valid(&c) && len(c.Adds) <= 3 {
+			pool = append(pool, c)
+		}
+		return nil
+	})
+	if len(pool) > poolMax { // an even sample over the whole input
+		var sample []c04Case
+		for i := 0; i < poolMax; i++ {
+			sample = append(sample, pool[i*len(pool)/poolMax])
+		}
+		pool = sample
+	}
+	if err != nil {
+		verifx.Emit(map[string]any{"kind": "error", "msg": err.Error()})
+		t.Fatal(err)
+	}
+	var scheds []c04Sched
+	if len(replays) == 0 {
+		scheds, err = verifx.ReadCases[c04Sched]("VERIF_SCHED")
+		if err != nil {
+			verifx.Emit(map[string]any{"kind": "error", "msg": err.Error()})
+			t.Fatal(err)
+		}
+		if len(pool) < 3 {
+			verifx.Emit(map[string]any{"kind": "error", "msg": "no pool of weight vectors"})
+			t.Fatal("no pool")
+		}
+	}
+	kinds := []string{"same-path-different-hosts", "tcp-ports", "same-subpath"}
+	type job struct {
+		m    *c04Multi
+		kind string
+	}
+	jobs := make(chan job, 256)
+	var st c04Stats
+	var wg sync.WaitGroup
+	for w := 0; w < workers; w++ {
+		wg.Add(1)
+		go func() {
+			defer wg.Done()
+			cache := NewGlobCache(100)
+			for j := range jobs {
+				c04RunMulti(j.m, j.kind, cache, &st)
+				atomic.AddInt64(&st.multi, 1)
+			}
+		}()
+	}
+	var samples []string
+	seenS := map[string]bool{}
+	for _, rp := range replays {
+		jobs <- job{rp.Multi, rp.Kind}
+	}
+	for n, s := range scheds {
+		key := fmt.Sprint(s.Sched)
+		if seenS[key] || len(s.Sched) == 0 || s.Routes < 1 || s.Routes > 3 {
+			continue
+		}
+		seenS[key] = true
+		kind := kinds[(n+int(seed))%len(kinds)]
+		m := &c04Multi{Sched: s.Sched, Warmup: (n*7919 + int(seed)*104729) % 10007}
+		for r := 0; r < s.Routes; r++ {
+			c := pool[(n*3+r*131+int(seed)*17)%len(pool)]
+			c.Src = c04SrcSets[kind][r]
+			m.Routes = append(m.Routes, c)
+		}
+		if len(samples) < 3 && n%97 == 13 {
+			var srcs []string
+			for i := range m.Routes {
+				srcs = append(srcs, fmt.Sprintf("%s(%d targets)", m.Routes[i].Src, len(m.Routes[i].Adds)))
+			}
+			samples = append(samples, fmt.Sprintf("routes %v, lookups interleaved as %v repeated", srcs, s.Sched))
+		}
+		jobs <- job{m, kind}
+	}
+	close(jobs)
+	wg.Wait()
+	verifx.Summary(map[string]any{"tables": st.multi, "picks": st.multiPicks, "weights": st.weights, "cycles": st.cycles, "pool": len(pool), "samples": samples})
 }
